@@ -95,4 +95,10 @@ theorem rightmul_mat_gen (p : Int) (a : Elem) :
     SqiGen.QuatAlg.quat_alg_rightmul_mat p a.denom a.coord.x0 a.coord.x1 a.coord.x2 a.coord.x3 =
       mtup (rightMulMat p a) := rfl
 
+/-- lattice.c `quat_lattice_index` (both diagonal loops unrolled, `ibz_abs` = natAbs, debug assert dropped) -/
+theorem lattice_index_gen (sub over : Lattice) :
+    SqiGen.QuatAlg.quat_lattice_index sub.denom (sub.basis.get 0 0) (sub.basis.get 1 1) (sub.basis.get 2 2)
+      (sub.basis.get 3 3) over.denom (over.basis.get 0 0) (over.basis.get 1 1) (over.basis.get 2 2) (over.basis.get 3 3)
+      = latIndex sub over := rfl
+
 end SqiProofs.QuatAlgText
